@@ -1227,3 +1227,35 @@ func init() {
 		c.Expect(2, n, "task-window wipes in pruneStaleState")
 	})
 }
+
+func init() {
+	extendProp("C17", "Every history store that a rollback truncates is one whose coverage of the target was checked beforehand: each freezer field of Database that Recover hands to truncateFromHead is also read by Recoverable (a store with its own retention limit that is truncated but never consulted makes Recover fail after the state was already reverted).", nil, func(c *Ctx) {
+		c.Rule("SIBLING/C17.recoverstores")
+		pd := "triedb/pathdb"
+		rec := c.Fn(pd, "(*Database).Recover")
+		able := c.Fn(pd, "(*Database).Recoverable")
+		if rec == nil || able == nil {
+			return
+		}
+		c.Funcs[rec], c.Funcs[able] = true, true
+		read := map[string]bool{}
+		eachInstr(able, func(in ssa.Instruction) {
+			if fa, ok := in.(*ssa.FieldAddr); ok {
+				read[fieldAddrName(fa)] = true
+			}
+		})
+		n := 0
+		for _, s := range c.Calls(rec, pd+".truncateFromHead") {
+			store := ifaceSrc(s.Instr.(*ssa.Call).Call.Args[0])
+			fld := fieldOfLoad(store)
+			if fld == "" {
+				c.Undecided("store/"+fnName(rec), s.Pos(), "the store truncated by Recover is not a field of the database")
+				continue
+			}
+			n++
+			short := fld[strings.LastIndex(fld, ".")+1:]
+			c.Check(read[fld], "consulted/"+short, s.Pos(), "Recoverable consults "+short+" before Recover truncates it", "Recover truncates "+short+" down to the target, but Recoverable never consults that store: when its tail lies above the target (it has its own retention limit, or was enabled later) Recover fails with a head-truncation error after the state has already been reverted and the state history truncated, and the database no longer reopens")
+		}
+		c.Expect(2, n, "history stores truncated by Recover")
+	})
+}
